@@ -329,6 +329,13 @@ Proof.
   apply (RD_lstep e a b e' HR L); [rewrite Ma; discriminate|exact Hne|exact He'].
 Qed.
 
+Lemma nrpath_final s n m : RD s -> nrpath g s n m -> node_final g s n -> node_final g s m.
+Proof.
+  intros HR H. induction H as [n|n e i m Hp Hr Hi Hpath IH]; intros Fn; [exact Fn|].
+  apply IH. assert (Hd : mark_of s e = VisitDone) by (unfold node_final in Fn; rewrite Hp in Fn; exact Fn).
+  destruct (HR e Hd) as [D1 _]. apply D1. exact Hi.
+Qed.
+
 (* a node that is final while [e] is in the stack survives a local step of [e] *)
 Lemma final_lstep e a b i :
   lstep g e a b -> mark_of a e = VisitInStack -> node_final g a i ->
@@ -1917,6 +1924,178 @@ Proof.
   intros Hn He Hd. pose proof (edges_all_spec g _ e Hn He) as H. cbn beta in H.
   rewrite Hd in H. cbn [is_deps_log negb orb] in H. apply negb_true_iff in H. exact H.
 Qed.
+
+(* ================================================================== Part G: the two manifests accept or refuse together *)
+Lemma frag_D_inline : frag_D gi = true.
+Proof.
+  unfold frag_D, edges_all. apply forallb_forall. intros e He. apply in_seq in He.
+  destruct (frag_D_edge g e HfD) as [_ [Hv _]]; [cbn [inline g_nedges] in He; lia|].
+  cbn [inline g_edge inline_edge ei_deps ei_vals not_depfile is_deps_log negb orb]. rewrite Hv. reflexivity.
+Qed.
+
+Lemma Gi_wf ds : wf_spec (Gi ds).
+Proof. exact Hwfi. Qed.
+Lemma Gi_wg ds : wf_graph (Gi ds).
+Proof. exact Hwg. Qed.
+Lemma Gi_fragD ds : frag_D (Gi ds) = true.
+Proof. exact frag_D_inline. Qed.
+
+Lemma acyclic_d ds : GoodD ds -> acyclic (Gd ds) (Wd ds).
+Proof.
+  intros HG c Hc.
+  set (ins' := fun e => if Nat.ltb e (g_nedges g) then pot_ins (Gd ds) (Wd ds) e else []).
+  assert (Hrk : ranked_via (Gd ds) ins' (fun e => e)).
+  { intros e i e' Hi Hp. unfold ins' in Hi. destruct (Nat.ltb_spec e (g_nedges g)) as [He|He]; [|destruct Hi].
+    apply (pot_in_inline ds e HG) in Hi.
+    pose proof (edges_all_spec gi _ e Htopo) as H. cbn beta in H.
+    specialize (H ltac:(cbn [inline g_nedges]; exact He)). rewrite forallb_forall in H.
+    specialize (H i Hi). cbn [inline g_producer] in H. cbn [graph_of g_producer] in Hp. rewrite Hp in H.
+    apply Nat.ltb_lt. exact H. }
+  apply (ranked_acyclic (Gd ds) ins' _ Hrk c). destruct Hc as [Hw [Hlen Hhd]]. split; [|split; assumption].
+  clear Hlen Hhd. induction Hw as [x|x y l Hs Hw IH]; [apply walk_one|].
+  apply walk_cons; [|exact IH]. destruct Hs as [e [He Hin]]. exists e. split; [exact He|].
+  unfold ins'. rewrite (proj2 (Nat.ltb_lt _ _) (Hwg x e He)). exact Hin.
+Qed.
+
+Section Accept.
+Hypothesis Hord : hidden_reads_ordered g hid = true.
+Hypothesis Hnip : no_inputless_phony g = true.
+
+Lemma hidden_present_spec st e i : hidden_srcs_present g hid st = true -> (e < g_nedges g)%nat ->
+  In i (hid e) -> g_producer g i = None -> h_disk st i <> None.
+Proof.
+  intros H He Hi Hp. pose proof (edges_all_spec g _ e H He) as H1. cbn beta in H1.
+  rewrite forallb_forall in H1. specialize (H1 i Hi). unfold is_source in H1. rewrite Hp in H1.
+  cbn [negb orb] in H1. destruct (h_disk st i); [discriminate|discriminate].
+Qed.
+
+(* refused by the deps manifest => refused by the inlined manifest *)
+Lemma missing_d_i ds T m d si pi : GoodD ds ->
+  dscan g ds T = ScanMissing m d -> scan (Gi ds) (Wi ds) T = ScanOk si pi -> False.
+Proof.
+  intros HG Hd Hi. unfold dscan, scan in Hd.
+  destruct (add_targets_missing_D (Gd ds) (Wd ds) (Gd_wf ds) (Gd_wg ds) (Gd_frag ds) T T _ _ m d (incl_refl T) Hd
+              (SInv_init (Gd ds) (Wd ds)) (RD_init (Gd ds) (Wd ds)) (PID_init (Gd ds) (Wd ds) T))
+    as [t [s1 [Ht [HS1 [HR1 [Ft [Hpath [_ [Hpm Hdm]]]]]]]]].
+  destruct (accepted_factsD (Gi ds) (Wi ds) (Gi_wf ds) (Gi_wg ds) (Gi_fragD ds) T si pi Hi) as [_ [HRB _]].
+  apply (transfer_contra (Gd ds) (Gi ds) (Wd ds) (Wi ds) T s1 si pi (Gd_wf ds) (Gd_wg ds)
+           (Gi_wf ds) (Gi_wg ds) (Gi_fragD ds)) with (t := t) (m := m); try assumption; try reflexivity.
+  - intros n. apply (md_d_i ds n HG).
+  - intros e i He HdA HdB Hin. left.
+    apply (RD_manifest (Gi ds) (Wi ds) si e (HRB e HdB)).
+    change (ei_ins (g_edge (Gi ds) e)) with (ei_ins (g_edge gi e)).
+    apply (pot_in_inline ds e HG). apply (RD_pot (Gd ds) (Wd ds) s1 e (HR1 e HdA)). exact Hin.
+  - intros e i e' He HdA Hin Hp.
+    assert (Hgi : In i (ei_ins (g_edge gi e))).
+    { apply (pot_in_inline ds e HG). apply (RD_pot (Gd ds) (Wd ds) s1 e (HR1 e HdA)). exact Hin. }
+    pose proof (edges_all_spec gi _ e Htopo) as H. cbn beta in H.
+    specialize (H ltac:(cbn [inline g_nedges]; exact He)). rewrite forallb_forall in H.
+    specialize (H i Hgi). cbn [inline g_producer] in H. cbn [graph_of g_producer] in Hp. rewrite Hp in H.
+    apply Nat.ltb_lt. exact H.
+  - intros e He HdB [Hph Hnil]. apply (nip_edge g e Hnip He). split; [exact Hph|].
+    pose proof (RD_manifest (Gi ds) (Wi ds) si e (HRB e HdB)) as Hinc.
+    destruct (eins e) as [|x xs] eqn:Hx; [reflexivity|]. exfalso.
+    assert (Hxi : In x (ei_ins (g_edge (Gi ds) e))).
+    { change (ei_ins (g_edge (Gi ds) e)) with (ei_ins (g_edge gi e)). apply inline_ins_in. left. rewrite Hx. left; reflexivity. }
+    specialize (Hinc x Hxi). rewrite Hnil in Hinc. destruct Hinc.
+  - apply (nrpath_final (Gd ds) (Wd ds) s1 t m HR1 Hpath Ft).
+Qed.
+
+(* refused by the inlined manifest => refused by the deps manifest, when the hidden sources exist
+   and the targets are manifest nodes *)
+Lemma missing_i_d ds T m d s p : GoodD ds ->
+  hidden_srcs_present g hid (d_h ds) = true -> targets_known g T = true ->
+  scan (Gi ds) (Wi ds) T = ScanMissing m d -> dscan g ds T = ScanOk s p -> False.
+Proof.
+  intros HG Hpres HT Hi Hd. unfold scan in Hi.
+  destruct (add_targets_missing_D (Gi ds) (Wi ds) (Gi_wf ds) (Gi_wg ds) (Gi_fragD ds) T T _ _ m d (incl_refl T) Hi
+              (SInv_init (Gi ds) (Wi ds)) (RD_init (Gi ds) (Wi ds)) (PID_init (Gi ds) (Wi ds) T))
+    as [t [s1 [Ht [HS1 [HR1 [Ft [Hpath [_ [Hpm Hdm]]]]]]]]].
+  destruct (accepted_factsD (Gd ds) (Wd ds) (Gd_wf ds) (Gd_wg ds) (Gd_frag ds) T s p Hd) as [_ [HRB _]].
+  assert (InsA : forall e i, es_mark (st_edge s1 e) = VisitDone -> In i (es_ins (st_edge s1 e)) ->
+                             In i (eins e) \/ In i (hid e)).
+  { intros e i HdA Hin. destruct (RD_ins (Gi ds) (Wi ds) s1 e (HR1 e HdA) i Hin) as [Hm|Hv].
+    - apply inline_ins_in. exact Hm.
+    - unfold valid_deps, spec_load in Hv. cbn [graph_of inline g_edge inline_edge set_hash ei_deps] in Hv. destruct Hv. }
+  apply (transfer_contra (Gi ds) (Gd ds) (Wi ds) (Wd ds) T s1 s p (Gi_wf ds) (Gi_wg ds)
+           (Gd_wf ds) (Gd_wg ds) (Gd_frag ds)) with (t := t) (m := m); try assumption; try reflexivity.
+  - intros n. apply (md_i_d ds n HG).
+  - intros e i He HdA HdB Hin.
+    pose proof (RD_manifest (Gd ds) (Wd ds) s e (HRB e HdB)) as Hman.
+    change (ei_ins (g_edge (Gd ds) e)) with (eins e) in Hman.
+    destruct (InsA e i HdA Hin) as [Hm|Hh]; [left; apply Hman; exact Hm|].
+    destruct (g_producer g i) as [u|] eqn:Hpi.
+    + left. apply Hman. apply (hid_generated Hord e i u He Hh Hpi).
+    + right. split; [exact Hpi|]. cbn [world_of w_mtime]. unfold mtime_of.
+      pose proof (hidden_present_spec (d_h ds) e i Hpres He Hh Hpi) as Hne.
+      destruct (h_disk (d_h ds) i) as [[mi ci]|] eqn:Hdi; [|congruence].
+      destruct HG as [[[_ [B _]] _] _]. specialize (B i mi ci Hdi). lia.
+  - intros e i e' He HdA Hin Hp.
+    assert (Hgi : In i (ei_ins (g_edge gi e))) by (apply inline_ins_in; apply (InsA e i HdA Hin)).
+    pose proof (edges_all_spec gi _ e Htopo) as H. cbn beta in H.
+    specialize (H ltac:(cbn [inline g_nedges]; exact He)). rewrite forallb_forall in H.
+    specialize (H i Hgi). cbn [inline g_producer] in H. cbn [graph_of inline g_producer] in Hp. rewrite Hp in H.
+    apply Nat.ltb_lt. exact H.
+  - intros e He HdB [Hph Hnil]. apply (nip_edge g e Hnip He). split; [exact Hph|].
+    pose proof (RD_manifest (Gd ds) (Wd ds) s e (HRB e HdB)) as Hinc.
+    change (ei_ins (g_edge (Gd ds) e)) with (eins e) in Hinc.
+    destruct (eins e) as [|x xs]; [reflexivity|]. exfalso.
+    specialize (Hinc x (or_introl eq_refl)). rewrite Hnil in Hinc. destruct Hinc.
+  - intros e m0 He HdB Hin Hp0 Hz. cbn [graph_of g_byloader].
+    destruct (RD_ins (Gd ds) (Wd ds) s e (HRB e HdB) m0 Hin) as [Hm|Hv].
+    + apply (proj1 (frag_ABD_edge g hid e Hfrag He) m0 Hm).
+    + exfalso. unfold valid_deps in Hv.
+      destruct (load_cases ds e HG He) as [[Hf _]|[l [Hl Hsi]]]; [rewrite Hf in Hv; destruct Hv|].
+      rewrite Hl in Hv.
+      assert (Hh : In m0 (hid e)).
+      { assert (Hx : In m0 (spec_ins (Gd ds) (Wd ds) e)) by (unfold spec_ins, valid_deps; rewrite Hl; apply in_or_app; right; exact Hv).
+        rewrite Hsi in Hx. unfold read_ins in Hx. apply in_app_or in Hx. destruct Hx as [Hx|Hx]; [|exact Hx].
+        destruct (deps_kind_cases g e HfD He) as [Hdk|Hdk].
+        - rewrite (spec_load_none (Gd ds) (Wd ds) e Hdk) in Hl. inversion Hl; subst l. destruct Hv.
+        - (* also a manifest input: then it is no hidden-only node, but present it must be all the same *)
+          exfalso. cbn [graph_of inline g_producer] in Hp0. cbn [world_of w_mtime] in Hz.
+          clear Hx. 
+          assert (Hlh : In m0 (hid e)).
+          { unfold spec_load in Hl. cbn [graph_of g_edge set_hash ei_deps ei_outs] in Hl. rewrite Hdk in Hl.
+            destruct (outs e) as [|o0 os] eqn:Hos; [discriminate|]. cbn [world_of_d w_dlog] in Hl.
+            destruct (d_deps ds o0) as [[dm nodes]|] eqn:Hr; [|discriminate].
+            destruct (Z.gtb _ _); [discriminate|]. inversion Hl; subst nodes.
+            destruct (proj1 (proj2 HG) o0 dm l Hr) as [_ [e' [Ho' [_ Hh']]]].
+            assert (e' = e); [|subst; exact Hv].
+            pose proof (o_prod_d e' o0 Ho') as H1. rewrite (o_prod_d e o0) in H1 by (rewrite Hos; left; reflexivity). congruence. }
+          apply (hidden_present_spec (d_h ds) e m0 Hpres He Hlh Hp0).
+          unfold mtime_of in Hz. destruct (h_disk (d_h ds) m0) as [[mi ci]|] eqn:Hdi; [|reflexivity].
+          destruct HG as [[[_ [B _]] _] _]. specialize (B m0 mi ci Hdi). lia. }
+      cbn [graph_of inline g_producer] in Hp0. cbn [world_of w_mtime] in Hz.
+      apply (hidden_present_spec (d_h ds) e m0 Hpres He Hh Hp0).
+      unfold mtime_of in Hz. destruct (h_disk (d_h ds) m0) as [[mi ci]|] eqn:Hdi; [|reflexivity].
+      destruct HG as [[[_ [B _]] _] _]. specialize (B m0 mi ci Hdi). lia.
+  - intros t0 Ht0. cbn [graph_of g_byloader]. unfold targets_known in HT. rewrite forallb_forall in HT.
+    specialize (HT t0 Ht0). apply negb_true_iff in HT. exact HT.
+  - apply (nrpath_final (Gi ds) (Wi ds) s1 t m HR1 Hpath Ft).
+Qed.
+
+(* the two manifests accept or refuse together *)
+Theorem accept_equiv ds T : GoodD ds ->
+  hidden_srcs_present g hid (d_h ds) = true -> targets_known g T = true ->
+  ((exists s p, dscan g ds T = ScanOk s p) <-> (exists si pi, scan (Gi ds) (Wi ds) T = ScanOk si pi)).
+Proof.
+  intros HG Hpres HT. split.
+  - intros [s [p Hd]]. destruct (scan (Gi ds) (Wi ds) T) as [c|m d|e| |si pi] eqn:Hi.
+    + exfalso. apply (C17_no_false_positive (Gi ds) (Wi ds) T (topo_acyclic (Gi ds) (Wi ds) (Gi_wg ds) (frag_AB_inline g hid HfD) Htopo) c Hi).
+    + exfalso. apply (missing_i_d ds T m d s p HG Hpres HT Hi Hd).
+    + exfalso. apply (scan_no_loaderrD (Gi ds) (Wi ds) (Gi_wg ds) (Gi_fragD ds) T e Hi).
+    + exfalso. apply (scan_fuel_sufficient (Gi ds) (Wi ds) (Gi_wg ds) T Hi).
+    + exists si, pi. reflexivity.
+  - intros [si [pi Hi]]. unfold dscan. destruct (scan (Gd ds) (Wd ds) T) as [c|m d|e| |s p] eqn:Hd.
+    + exfalso. apply (C17_no_false_positive (Gd ds) (Wd ds) T (acyclic_d ds HG) c Hd).
+    + exfalso. apply (missing_d_i ds T m d si pi HG Hd Hi).
+    + exfalso. apply (scan_no_loaderrD (Gd ds) (Wd ds) (Gd_wg ds) (Gd_frag ds) T e Hd).
+    + exfalso. apply (scan_fuel_sufficient (Gd ds) (Wd ds) (Gd_wg ds) T Hd).
+    + exists s, p. reflexivity.
+Qed.
+
+End Accept.
 
 Section PartC.
 Variables (ds0 : dstate) (T : list node) (s0 : sstate) (p0 : plan).
